@@ -332,21 +332,69 @@ fn main() {
         }).reduce(Stats::default, Stats::merge)
     };
 
+    // real-git layer: the tags of one commit in a repository whose other ref namespaces hold the same names (a branch called like a tag,
+    // a remote called like a tag, a remote-tracking branch called like a tag, a branch `tags/<tag>`) - git then prints such a tag as
+    // `tags/<name>` wherever a *short* ref name is asked for. The base tag zerv reports must be the greatest tag of the commit under R-SV.
+    let s_git = {
+        use zvharness::gitx::{self, DateMode, Head, Repo, Shape, Tag};
+        use zvharness::zv::{self, Res};
+        let sets: Vec<Vec<&str>> = vec![vec!["v1.4.0-rc.2", "v1.4.0"], vec!["v1.4.0", "v1.4.1-alpha", "v1.4.1-alpha.1"], vec!["v2.0.0", "v10.0.0", "v9.9.9"], vec!["v1.0.0+build", "v1.0.0-0"], vec!["1.4.0", "v1.3.9"], vec!["v1.0.0-rc.10", "v1.0.0-rc.9", "v1.0.0-rc.9.1"]];
+        let kinds = ["none", "branch", "branch tags/", "remote", "remote-tracking"];
+        let root = gitx::scratch_root().join("c10");
+        let work: Vec<(usize, usize, usize)> = sets.iter().enumerate().flat_map(|(si, set)| (0..kinds.len()).flat_map(move |k| (0..if k == 0 { 1 } else { set.len() }).map(move |t| (si, k, t)))).collect();
+        let st = work.par_iter().map(|&(si, k, t)| {
+            let mut st = Stats::default();
+            let set = &sets[si];
+            let mut branches: std::collections::BTreeMap<String, usize> = [("main".to_string(), 1usize)].into_iter().collect();
+            match k { 1 => { branches.insert(set[t].to_string(), 0); } 2 => { branches.insert(format!("tags/{}", set[t]), 0); } _ => {} }
+            let shape = Shape { parents: vec![vec![], vec![0]], branches, cur: "main".into(), ops: vec!["commit".into()] };
+            let mut repo = Repo::create(&root, &format!("g{si}-{k}-{t}"), &shape, &gitx::dates(2, DateMode::Increasing));
+            let tags: Vec<Tag> = set.iter().enumerate().map(|(i, n)| Tag { name: n.to_string(), target: 1, annotated: (i + si) % 2 == 0 }).collect();
+            repo.set_tags(&tags);
+            match k {
+                3 => { gitx::git(&repo.dir, &["update-ref", &format!("refs/remotes/{}/HEAD", set[t]), &repo.shas[0]], None); }
+                4 => { gitx::git(&repo.dir, &["update-ref", &format!("refs/remotes/origin/{}", set[t]), &repo.shas[0]], None); }
+                _ => {}
+            }
+            repo.set_head(&Head::Branch("main".into()));
+            let dir = repo.dir.to_string_lossy().to_string();
+            let want = set.iter().max_by(|a, b| rsv::cmp(&rsv::parse(a).unwrap(), &rsv::parse(b).unwrap())).unwrap().to_string();
+            let key = format!("tags {set:?} on HEAD, ref collision {} {:?}", kinds[k], if k == 0 { "" } else { set[t] });
+            let case = json!({"kind":"git-max","tags":set,"collision":kinds[k],"name":set[t]});
+            for input in ["semver", "auto"] {
+                st.inc("git_max_tag_runs");
+                match zv::run_cli(&["version", "-C", &dir, "--input-format", input, "--output-format", "zerv"], None) {
+                    Err(p) => ctx.violation(&format!("panic@{}", p.file()), key.clone(), case.clone(), p.message.clone()),
+                    Ok(Res::Ok(o)) => {
+                        let got = zerv::version::Zerv::from_str(&o).ok().and_then(|z| z.vars.last_tag_version.clone()).unwrap_or_default();
+                        if got != want { ctx.violation("git_base_tag_not_greatest", format!("{key} [input-format {input}]"), case.clone(), format!("zerv reports {got:?}, the greatest tag of the commit is {want:?}")); }
+                    }
+                    Ok(other) => ctx.violation("git_base_tag_not_greatest", format!("{key} [input-format {input}]"), case.clone(), format!("{other:?}; the greatest tag of the commit is {want:?}")),
+                }
+            }
+            repo.remove();
+            st
+        }).reduce(Stats::default, Stats::merge);
+        let _ = std::fs::remove_dir_all(gitx::scratch_root());
+        st
+    };
+
     // determinism replay on the build universe
     if check_pairs(&ctx, &u_build).digest != s_build.digest { machinery_error("determinism replay diverged"); }
 
-    let all = s_main.clone().merge(s_build.clone()).merge(s_wide.clone()).merge(s_hyph).merge(s_words).merge(s_tri.clone()).merge(s_mt.clone()).merge(s_names).merge(s_sweep).merge(s_carry).merge(s_long);
+    let all = s_main.clone().merge(s_build.clone()).merge(s_wide.clone()).merge(s_hyph).merge(s_words).merge(s_tri.clone()).merge(s_mt.clone()).merge(s_names).merge(s_sweep).merge(s_carry).merge(s_long).merge(s_git);
     for (t, e) in REJECTED.lock().unwrap().iter() { ctx.violation("universe_member_rejected", format!("{t:?}"), json!({"kind":"member","text":t}), format!("the real parser rejects this spelling of a valid version: {e}")); }
     let mut cov = Coverage::default();
     cov.states = (u_main.len() + u_build.len() + u_wide.len() + u_hyph.len()) as u64 + sweep_states;
     cov.transitions = all.get("pairs");
-    cov.evaluations = all.get("pairs") + all.get("triples") + all.get("max_tag_sets");
+    cov.evaluations = all.get("pairs") + all.get("triples") + all.get("max_tag_sets") + all.get("git_max_tag_runs");
     cov.traces_validated = cov.evaluations;
     cov.distinct_nontrivial = all.get("want_less") + all.get("want_greater");
     cov.rule = format!("versions are built as strings and parsed by the real parser; universe U1 = core numbers {nums:?}^3 x pre-release lists of length <=3 over {ids:?} ({} versions, all ordered pairs vs the reference comparator); U2 adds build metadata variants ({}), U3 wide numbers up to u64::MAX in the core and up to 24 digits in identifiers ({}); U4 hyphenated identifiers (rc-2, rc-10, 1-0, -, ...) in lists of length <=2 ({}); U5 dense sweeps: every number 0..={k} in each of 8 positions (core numbers, numeric identifier first / second, glued to a label before and after), all ordered pairs per position; all ordered triples of a {}-element sub-universe (transitivity, no reference); find_max_version_tag on all ordered selections of <=3 tags from {} versions, and through the real tag filter on all ordered selections of <=3 (thorough 4) names from a pool of 10 that mixes SemVer tags with non-SemVer names. non-trivial = ordered pairs whose precedence differs (not Equal)", u_main.len(), u_build.len(), u_wide.len(), u_hyph.len(), sub.len(), sub2.len());
     cov.exhaustive = true;
     cov.samples = vec![json!({"a": u_main[u_main.len()/3].text, "b": u_main[u_main.len()/2].text}), json!({"a": u_build[5].text, "b": u_build[6].text}), json!({"a": u_wide[u_wide.len()-1].text, "b": u_wide[u_wide.len()/2].text})];
     cov.set("clause_counts", all.to_json());
+    cov.set("git_layer", json!("6 tag sets on one commit (lightweight / annotated alternating) x ref-namespace collisions {none, branch, branch tags/<tag>, remote <tag>/HEAD, remote-tracking origin/<tag>} for each tag of the set x input formats semver / auto, in real git repositories: the reported base tag is the R-SV greatest"));
     cov.assumptions = vec!["reference comparator R-SV (SemVer 2.0.0 §11 on decimal strings)".into(), "numbers and identifiers outside the stated universes are not explored".into()];
     finish(&ctx, cov);
 }
